@@ -215,7 +215,7 @@ def _check(run, replay, work):
         return
 
     # ---------------- TLC ----------------
-    run.tlc("Loops", "MC_Loops_chars.cfg", constants={"MaxLen": 4 if quick else 6}, coverage=quick, timeout=3000)
+    run.tlc("Loops", "MC_Loops_chars.cfg", constants={"MaxLen": 4 if quick else 5}, coverage=quick, timeout=3000)
     r = run.tlc("Loops", "MC_Loops_tokens.cfg", shards=NCPU, constants={"MaxTok": 2 if quick else 3}, timeout=3000)
     toks = [d["toks"] for d in r.printed]
     expected = sum(20 ** k for k in range((2 if quick else 3) + 1))
